@@ -1078,7 +1078,11 @@ fn reporter_main(plan: &Value, log: BLog) {
         set_time_source(TimeSource::custom(SimTime::plain(wall.clone())))
     };
     let rt = tokio::runtime::Builder::new_current_thread().enable_time().start_paused(true).build().expect("runtime");
-    let interval = std::time::Duration::from_millis(ju(plan, "interval_ms", 60_000));
+    // (u64::MAX stands for Duration::MAX: "publish at shutdown only")
+    let interval = match ju(plan, "interval_ms", 60_000) {
+        u64::MAX => std::time::Duration::MAX,
+        ms => std::time::Duration::from_millis(ms),
+    };
     let sink = ReadoutSink { log: log.clone(), n: Arc::new(std::sync::atomic::AtomicU64::new(0)), wall: wall_ns };
     let keys = keys_of(plan);
     rt.block_on(async {
@@ -1123,6 +1127,12 @@ fn reporter_main(plan: &Value, log: BLog) {
         for op in ja(plan, "driver") {
             match js(op, "op", "") {
                 "tick" => tokio::time::sleep(std::time::Duration::from_millis(ju(op, "ms", 0))).await,
+                // the handle "may be freely cloned": a clone handed to some helper comes and goes
+                "clone_drop" => {
+                    let c = reporter.clone();
+                    detsim::yield_point();
+                    drop(c);
+                }
                 "yield" => detsim::yield_point(),
                 "tokio_yield" => tokio::task::yield_now().await,
                 _ => {}
@@ -1146,16 +1156,18 @@ fn reporter_main(plan: &Value, log: BLog) {
 
 pub fn gen_c20_reporter(rng: &mut Rng, tier: Tier) -> Value {
     let mut plan = gen_c20(rng, tier);
-    let interval_ms = *rng.pick(&[1u64, 1000, 60_000, 3_600_000]);
+    let interval_ms = *rng.pick(&[1u64, 1000, 60_000, 3_600_000, u64::MAX]);
+    let tick_ms = if interval_ms == u64::MAX { 60_000 } else { interval_ms };
     let mut driver: Vec<Value> = vec![];
     for _ in 0..rng.below(5) {
-        match rng.below(4) {
+        match rng.below(5) {
+            4 => driver.push(json!({"op":"clone_drop"})),
             0 => driver.push(json!({"op":"yield"})),
             1 => driver.push(json!({"op":"tokio_yield"})),
             _ => {
                 let k = *rng.pick(&[0u64, 1, 1, 2, 3]);
                 let frac = *rng.pick(&[0u64, 0, 1, 2]);
-                driver.push(json!({"op":"tick","ms": interval_ms * k + interval_ms * frac / 3}));
+                driver.push(json!({"op":"tick","ms": tick_ms * k + tick_ms * frac / 3}));
             }
         }
     }
